@@ -1218,7 +1218,7 @@ class Interp:
                 return Const(base.v[idx.v])
             except Exception:  # noqa
                 pass
-        if isinstance(base, Const) and isinstance(base.v, str) and isinstance(idx, App) and idx.op == "slice" \
+        if isinstance(base, Const) and isinstance(base.v, (str, bytes)) and isinstance(idx, App) and idx.op == "slice" \
                 and all(isinstance(a, Const) for a in idx.args):
             lo, hi, st = (a.v for a in idx.args)
             return Const(base.v[lo:hi:st])
@@ -1361,7 +1361,8 @@ class Interp:
         name = BIN_NAME[type(op)]
         if isinstance(l, Const) and isinstance(r, Const):
             try:
-                return Const(_BINFN[name](l.v, r.v))
+                v = _BINFN[name](l.v, r.v)
+                return Const(bytes(v) if isinstance(v, bytearray) else v)
             except Exception:  # noqa
                 pass
         if name == "add" and isinstance(l, ListV) and isinstance(r, ListV):
@@ -1723,6 +1724,30 @@ class Interp:
                     return [(cfg, ListV([Const(i) for i in r]))]
             except Exception:  # noqa
                 pass
+        if fname in ("bytearray", "bytes") and len(args) == 1 and not kwargs:
+            a = args[0]
+            if isinstance(a, ListV) and all(isinstance(x, Const) and isinstance(x.v, int) for x in a.items):
+                try:
+                    return [(cfg, Const(bytes([x.v for x in a.items])))]
+                except ValueError:
+                    out.add("raise", cfg.set("$exc", ExcV("ValueError", f"bytearray L{node.lineno}")))
+                    return []
+            if isinstance(a, Const) and isinstance(a.v, (bytes, bytearray)):
+                return [(cfg, Const(bytes(a.v)))]
+        if fname in ("pack", "struct.pack") and args and all(isinstance(a, Const) for a in args):
+            import struct as _struct
+            try:
+                return [(cfg, Const(_struct.pack(*[a.v for a in args])))]
+            except _struct.error:
+                out.add("raise", cfg.set("$exc", ExcV("Exception", f"struct.error L{node.lineno}")))
+                return []
+        if fname in ("unpack", "struct.unpack") and len(args) == 2 and all(isinstance(a, Const) for a in args):
+            import struct as _struct
+            try:
+                return [(cfg, ListV([Const(x) for x in _struct.unpack(args[0].v, args[1].v)], "tuple"))]
+            except _struct.error:
+                out.add("raise", cfg.set("$exc", ExcV("Exception", f"struct.error L{node.lineno}")))
+                return []
         if fname in ("ord", "chr", "abs", "int", "float", "repr") and len(args) == 1 and isinstance(args[0], Const) and not kwargs:
             try:
                 return [(cfg, Const({"ord": ord, "chr": chr, "abs": abs, "int": int, "float": float, "repr": repr}[fname](args[0].v)))]
@@ -1861,11 +1886,14 @@ class Interp:
                 if v is not None:
                     return [(cfg, v)]
                 return rebind(base.set(args[0], args[1]), args[1])
-        if isinstance(base, Const) and isinstance(base.v, str):
+        if isinstance(base, Const) and isinstance(base.v, bytes) and meth == "join" and len(args) == 1 and isinstance(args[0], ListV) \
+                and all(isinstance(x, Const) and isinstance(x.v, bytes) for x in args[0].items):
+            return [(cfg, Const(base.v.join(x.v for x in args[0].items)))]
+        if isinstance(base, Const) and isinstance(base.v, (str, bytes)):
             if all(isinstance(a, Const) for a in args) and not kwargs:
                 try:
                     r = getattr(base.v, meth)(*[a.v for a in args])
-                    if isinstance(r, (str, int, bool, type(None))):
+                    if isinstance(r, (str, int, bool, type(None), bytes)):
                         return [(cfg, Const(r))]
                     if isinstance(r, (list, tuple)):
                         return [(cfg, ListV([Const(x) for x in r]))]
